@@ -20,12 +20,26 @@ CLAIMED = {
         technique="contract-based deductive verification: symbolic execution of the real Python source against sidecar contracts, loop invariant + ghost fold-sum, VCs discharged by z3 (cvc5 for unknowns)",
         design="3/C05",
     ),
+    "C06": dict(
+        category="proof",
+        text="Contracts on find_local_peaks_rough, find_local_peaks, integral_regression and make_centered_bboxes. The rough detector is proved sound, complete and duplicate-free against the brute-force definition (value > threshold and strictly greater than every in-bounds 8-neighbour), with the right sample/channel indices, (x,y) order and value, for all batch/channel/map sizes (incl. 1xN and single-pixel maps), NaN cells and thresholds >= -1e4; independence of other samples/channels is a corollary (the characterisation mentions only map (s,c)). With integral refinement the rows, order, indices and values are unchanged and the refined point lies within (patch-1)/2 of its grid cell (hull lemma of integral_regression) for maps without negative/NaN cells.",
+        note="trusted: kornia dilation (pad and zero-kernel offset -1e4, read from the installed source), kornia crop_and_resize restricted to unit-scale axis-aligned boxes on images with sides >= 2 and finite 3x3 neighbourhoods, torch.where row-major selection contract; patch sizes unrolled (quick 5; thorough 1,3,5,7); known finding C06/negative-patch carved out and re-confirmed from a committed witness on every run.",
+        technique="contract-based deductive verification: symbolic execution of the real Python source against sidecar contracts, VCs discharged by z3 (cvc5 for unknowns)",
+        design="3/C06",
+    ),
+    "C07": dict(
+        category="proof",
+        text="Contracts on find_global_peaks_rough and find_global_peaks (no refinement): for every (sample, channel), if some cell reaches the threshold the reported value bounds every cell, is attained, and the reported point is a cell attaining it; otherwise the point is NaN and the value 0 -- for all map sizes, ties, batch/channel counts and thresholds. The tied-maxima defect of the pinned tree was found by this check and repaired (fix: commit 4cbc914).",
+        note="domain: finite maps (no NaN cells); torch.max contract = documented guarantee (a maximal value and an index attaining it; row-major flat index for the merged H*W axis). Not decided: integral refinement of global peaks (obligations generated, solver unknown) and the analytic 'moves toward the true centre' clause.",
+        technique="contract-based deductive verification: symbolic execution of the real Python source against sidecar contracts, VCs discharged by z3 (cvc5 for unknowns)",
+        design="3/C07",
+    ),
 }
 
 NOT_APPLICABLE = {
     "C19": "no pre/postcondition on a function of this repository expresses it: training completion, artifacts and crash-point file contents live in Lightning/wandb/OmegaConf and the file system (DESIGN.md section 5)",
 }
-NOT_BUILT = ["C02", "C03", "C04", "C06", "C07", "C08", "C09", "C10", "C11", "C12", "C13", "C14", "C15", "C16", "C17", "C18", "C20"]
+NOT_BUILT = ["C02", "C03", "C04", "C08", "C09", "C10", "C11", "C12", "C13", "C14", "C15", "C16", "C17", "C18", "C20"]
 
 
 def main():
